@@ -74,7 +74,7 @@ class Job:
 
     def __init__(self, prop, name, src, defs=None, link=(), models=(), opt='inline', unwind=2, unwindset=None,
                  solver='minisat', timeout=300, shape='K', extra=(), bounds='', nochk=False, objbits=None,
-                 depth=None, stubs=None):
+                 depth=None, stubs=None, skip_ctors=()):
         self.prop, self.name, self.src = prop, name, src
         self.defs = dict(defs or {})
         self.link = list(link)
@@ -88,6 +88,7 @@ class Job:
         self.objbits = objbits
         self.stubs = list(DEFAULT_STUBS if stubs is None else stubs)
         self.stubbed = []
+        self.skip_ctors = list(skip_ctors)
         self.dir = os.path.join(BUILD, prop, name)
         self.log = []
 
@@ -150,7 +151,10 @@ class Job:
             if rc != 0:
                 raise PipelineError('opt failed:\n' + err[-3000:])
         hc = os.path.join(self.dir, 'h.c')
-        rc, out, err, _ = run([os.path.join(VERIF, 'tool', 'll2c'), final, '-o', hc])
+        sk = []
+        for c in self.skip_ctors:
+            sk += ['--skip-ctor', c]
+        rc, out, err, _ = run([os.path.join(VERIF, 'tool', 'll2c'), final, '-o', hc] + sk)
         if rc != 0:
             raise PipelineError('ll2c failed on %s: %s' % (self.name, err[-3000:]))
         self.defined = [l[2:] for l in out.splitlines() if l.startswith('D ')]
@@ -309,7 +313,7 @@ class Job:
         exe = os.path.join(self.dir, 'h_gcc')
         srcs = [os.path.join(self.dir, 'h.c'), os.path.join(VERIF, 'models', 'rt_gcc.c')] + \
                [m for m in self.model_files() if not m.endswith('rt_cbmc.c')]
-        rc, out, err, dt = run(['gcc', '-O0', '-g', '-w', '-fno-strict-aliasing', '-fwrapv', '-I', os.path.join(VERIF, 'vp'),
+        rc, out, err, dt = run(['gcc', '-O0', '-g', '-w', '-fno-strict-aliasing', '-fwrapv', '-DVP_KF_IGNORE', '-I', os.path.join(VERIF, 'vp'),
                                 '-I', self.dir, '-I', os.path.join(VERIF, 'models')] + srcs + ['-o', exe, '-lm'])
         if rc != 0:
             raise PipelineError('gcc build of generated C failed for %s:\n%s' % (self.name, err[-3000:]))
